@@ -61,7 +61,23 @@ func worker(prop, scID, out string) {
 		b, _ := json.MarshalIndent(res, "", " ")
 		_ = os.WriteFile(out, b, 0o644)
 	}
-	sc := sim.Scenarios(thorough)[scID]
+	live := strings.HasSuffix(scID, "@live")
+	sc := sim.Scenarios(thorough)[strings.TrimSuffix(scID, "@live")]
+	if live && sc != nil {
+		c := *sc
+		c.ID += "@live"
+		sc = &c
+	}
+	if live {
+		plan.FreeQueues, plan.Liveness = false, true
+		var ds []string
+		for _, d := range plan.Disturbances {
+			if d == "crash" || d == "midcrash" {
+				ds = append(ds, d)
+			}
+		}
+		plan.Disturbances = ds
+	}
 	if !ok || sc == nil {
 		res.Error = "unknown property or scenario"
 		write()
@@ -80,7 +96,7 @@ func worker(prop, scID, out string) {
 	}
 	r := lib.NewReport(prop)
 	cfg := sim.Config{Sc: sc, Actions: append([]string{"release", "approve"}, plan.Actions...), MaxUser: plan.MaxUser, Disturbances: plan.Disturbances,
-		MaxDisturb: plan.MaxDisturb, StateCap: plan.StateCap, Monitors: plan.Monitors(), InjectOncePerControlState: true, Verbose: os.Getenv("VERIF_VERBOSE") != ""}
+		MaxDisturb: plan.MaxDisturb, StateCap: plan.StateCap, Monitors: plan.Monitors(w, sc), InjectOncePerControlState: true, Verbose: os.Getenv("VERIF_VERBOSE") != ""}
 	budgetS := 150.0
 	if thorough {
 		budgetS = 3000
@@ -88,9 +104,19 @@ func worker(prop, scID, out string) {
 	cfg.Deadline = t0.Add(time.Duration(budgetS * float64(time.Second)))
 	ex := sim.NewExplorer(w, cfg, r)
 	ex.Run(sim.Budget{User: plan.MaxUser, Disturb: plan.MaxDisturb})
+	if plan.Liveness {
+		ex.Liveness()
+	}
 	res.Nodes, res.Keys, res.Transitions, res.ImplCalls, res.Capped = ex.NodesCount(), ex.DistinctKeys(), ex.Transitions, ex.ImplCalls, ex.Capped
 	res.Counters, res.Terminals = ex.Counters, ex.Terminals
 	res.Violations = r.RawViolations()
+	if plan.Relabel {
+		for _, v := range res.Violations {
+			if sig, _ := v["signature"].(string); !strings.HasPrefix(sig, prop+"/") {
+				v["signature"] = prop + "/via/" + sig
+			}
+		}
+	}
 	res.Caps = r.Caps()
 	res.Samples = ex.SampleTraces(3)
 	res.WallS = time.VerifRealNow().Sub(t0).Seconds()
@@ -111,7 +137,11 @@ func parent(prop string) {
 	var wg sync.WaitGroup
 	results := map[string]*workerResult{}
 	harnessErr := false
-	for _, scID := range plan.Scenarios {
+	all := append([]string{}, plan.Scenarios...)
+	for _, l := range plan.LiveScenarios {
+		all = append(all, l+"@live")
+	}
+	for _, scID := range all {
 		wg.Add(1)
 		go func(scID string) {
 			defer wg.Done()
@@ -228,20 +258,25 @@ func replay(prop, file string) {
 	}
 	thorough := os.Getenv("VERIF_TIER") == "thorough"
 	plan := sim.Plans(thorough)[prop]
-	sc := sim.Scenarios(thorough)[f.Replay.Scenario]
+	live := strings.HasSuffix(f.Replay.Scenario, "@live")
+	scName := strings.TrimSuffix(f.Replay.Scenario, "@live")
+	sc := sim.Scenarios(thorough)[scName]
 	if sc == nil {
-		sc = sim.Scenarios(!thorough)[f.Replay.Scenario]
+		sc = sim.Scenarios(!thorough)[scName]
 	}
-	w, err := buildWorld(sc, plan.FreeQueues)
+	w, err := buildWorld(sc, plan.FreeQueues && !live)
 	if err != nil {
 		fmt.Println("HARNESS-ERROR build:", err)
 		os.Exit(2)
 	}
 	r := lib.NewReport(prop)
-	cfg := sim.Config{Sc: sc, Monitors: plan.Monitors()}
+	cfg := sim.Config{Sc: sc, Monitors: plan.Monitors(w, sc)}
 	ex := sim.NewExplorer(w, cfg, r)
 	fmt.Printf("replaying %d transitions of scenario %s on the real controllers\n", len(f.Replay.Trace), sc.ID)
 	ex.Replay(f.Replay.Trace, true)
+	if plan.Relabel {
+		f.Signature = strings.TrimPrefix(f.Signature, prop+"/via/")
+	}
 	if r.HasViolation(f.Signature) {
 		fmt.Printf("REPLAY verdict: VIOLATION reproduced (%s)\n", f.Signature)
 		os.Exit(1)
@@ -249,8 +284,81 @@ func replay(prop, file string) {
 	fmt.Printf("REPLAY verdict: recorded signature %s NOT reproduced\n", f.Signature)
 }
 
+// linear runs one scenario under the default schedule (controllers first, then env, approvals granted),
+// printing every transition: a debugging aid, not a check.
+func linear(scID string) {
+	sc := sim.Scenarios(false)[scID]
+	w, err := buildWorld(sc, false)
+	if err != nil {
+		fmt.Println("HARNESS-ERROR build:", err)
+		os.Exit(2)
+	}
+	released := false
+	for step := 0; step < 600; step++ {
+		progressed := false
+		for _, c := range w.Ctls {
+			for _, k := range c.Queue.Ready() {
+				if c.Short == "D" {
+					w.SyncListers()
+				}
+				rr, log := w.Reconcile(c, k, sim.Fault{})
+				fmt.Printf("%3d %s(%s) calls=%d err=%v requeue=%v panic=%v\n", step, c.Short, k.Name, rr.Calls, rr.Err, rr.Result.RequeueAfter, rr.Panic != nil)
+				for _, wr := range log {
+					fmt.Printf("      %s %s status=%v\n", wr.Verb, wr.Key, wr.Status)
+				}
+				progressed = true
+			}
+		}
+		if !progressed {
+			for _, e := range w.Env {
+				if st := e.Steps(w); len(st) > 0 {
+					log, err := w.As("env", func() error { return e.Do(w, st[0]) })
+					fmt.Printf("%3d %s:%s writes=%d err=%v\n", step, e.Name(), st[0], len(log), err)
+					progressed = true
+					break
+				}
+			}
+		}
+		if !progressed {
+			for _, g := range sim.GCSteps(w) {
+				_, err := w.As("gc", func() error { return sim.GCDo(w, g) })
+				fmt.Printf("%3d gc:%s err=%v\n", step, g, err)
+				progressed = true
+				break
+			}
+		}
+		if progressed {
+			continue
+		}
+		fmt.Printf("%3d QUIESCENT %s now=%d traffic=[%s]\n", step, sim.ControlState(w, sc), w.Now()-sim.T0, sim.ReadTraffic(w, sc))
+		if !released {
+			_, err := w.As("user", func() error { return w.UserSetImage(sc, "app:v2") })
+			fmt.Println("    user release v2:", err)
+			released = true
+			continue
+		}
+		if strings.Contains(sim.ControlState(w, sc), "/StepPaused/") {
+			_, err := w.As("user", func() error { return w.UserApprove(sc) })
+			fmt.Println("    user approve:", err)
+			continue
+		}
+		due := false
+		for _, c := range w.Ctls {
+			if c.Queue.NextDue() > 0 {
+				due = true
+			}
+		}
+		if !due {
+			break
+		}
+		w.Tick()
+	}
+}
+
 func main() {
 	switch {
+	case len(os.Args) == 3 && os.Args[1] == "--linear":
+		linear(os.Args[2])
 	case len(os.Args) == 5 && os.Args[1] == "--worker":
 		worker(os.Args[2], os.Args[3], os.Args[4])
 	case len(os.Args) == 4 && os.Args[2] == "--replay":
